@@ -85,14 +85,22 @@ type Client struct {
 type faultyConn struct {
 	net.Conn
 	failWrites atomic.Bool
+	slowNext   atomic.Int64 // the next write delivers its bytes, then returns this much (virtual ns) later
 }
 
 func (f *faultyConn) Write(b []byte) (int, error) {
 	if f.failWrites.Load() {
 		return 0, errors.New("injected: write to client failed")
 	}
-	return f.Conn.Write(b)
+	n, err := f.Conn.Write(b)
+	if d := f.slowNext.Swap(0); d > 0 {
+		time.Sleep(time.Duration(d))
+	}
+	return n, err
 }
+
+// SlowNextBrokerWrite makes the broker's next write to this client return d after its bytes were delivered.
+func (c *Client) SlowNextBrokerWrite(d time.Duration) { c.srv.slowNext.Store(int64(d)) }
 
 // FailBrokerWrites makes every write of the broker to this client fail (on) or work again (off).
 func (c *Client) FailBrokerWrites(on bool) { c.srv.failWrites.Store(on) }
